@@ -52,6 +52,7 @@ fn main() {
 	let ctx = Ctx::new(&prop, tier, replay, level);
 	let mut rep = Report::new();
 	match prop.as_str() {
+		"C01" => props::c01::run(&ctx, &mut rep),
 		"C15" => props::c15::run(&ctx, &mut rep),
 		"C19" => props::c19::run(&ctx, &mut rep),
 		_ => {
